@@ -130,6 +130,10 @@ def _body_cdist(cls, na, nb, cdr3_len, sym_chain):
             return False, f"result shape {getattr(got, 'shape', None)}"
         if not (_unchanged(A, sa) and _unchanged(B, sb)):
             return False, "the caller's table was modified"
+        from models import rf_model
+        narrowing = [k_ for name, k_ in rf_model.CALLS if name == "cdist" and (k_["dtype"] is not None or k_["score_cutoff"] is not None)]
+        if narrowing:       # weighted sums easily exceed 255: a narrow result dtype would wrap silently
+            return False, f"rapidfuzz.process.cdist called with narrowing options {narrowing}"
         conds = [so.eq(got[i, j], _expected(so, cls, kw, la[i], lb[j])) for i in range(na) for j in range(nb)]
         return so.b_and(*conds), (lambda: f"{cls} cdist = {_realize(got.tolist())}")
     return body
@@ -195,7 +199,24 @@ def _replay_cdist(cls, na, nb, sym_chain):
         want = [[sum(kw.get("alpha_weight" if ch == "A" else "beta_weight", 1) * kw.get(f"cdr{lp}_weight", 1)
                      * wlev(loops(A, i)[lp + ch], loops(B, j)[lp + ch], kw["insertion_weight"], kw["deletion_weight"], kw["substitution_weight"])
                      for ch in chains for lp in cdrs) for j in range(nb)] for i in range(na)]
-        return np.asarray(got).tolist() == want, f"{cls}({kw}) cdist = {np.asarray(got).tolist()}, expected {want}; A={A.to_dict('list')} B={B.to_dict('list')} genes={table}"
+        if np.asarray(got).tolist() != want:
+            return False, f"{cls}({kw}) cdist = {np.asarray(got).tolist()}, expected {want}; A={A.to_dict('list')} B={B.to_dict('list')} genes={table}"
+        # real-library probe for the argument-record part: weights large enough that one edit exceeds 255 must not wrap
+        table, restore = _patch_tt(inputs, cdrs != ("3",))
+        try:
+            big = dict(insertion_weight=90, deletion_weight=100, substitution_weight=110)
+            big.update({n: 3 for n in names})
+            P = A.copy()
+            for ch in "AB":
+                P[f"CDR3{ch}"] = ["CASSLG" + "AQ"[r % 2] for r in range(len(P))]
+            Q = P.iloc[::-1].reset_index(drop=True)
+            pg = getattr(tcr_metric, cls)(**big).calc_cdist_matrix(P, Q)
+        finally:
+            restore()
+        pw = [[sum(big.get("alpha_weight" if ch == "A" else "beta_weight", 1) * big.get(f"cdr{lp}_weight", 1)
+                   * wlev(loops(P, i)[lp + ch], loops(Q, j)[lp + ch], 90, 100, 110) for ch in chains for lp in cdrs)
+               for j in range(len(Q))] for i in range(len(P))]
+        return np.asarray(pg).tolist() == pw, f"{cls}({big}) on CDR3s {list(P['CDR3A'])} vs {list(Q['CDR3A'])}: {np.asarray(pg).tolist()}, expected {pw} (values above 255 must not wrap)"
     return replay
 
 
